@@ -43,7 +43,7 @@ def gen_dq_program(rng, max_puts=4):
     return {"prod": prod, "other": other, "final_sleep": 3 * DELAY_UNITS, "close_at_end": close_at_end}
 
 
-def run_dq_program(prog, chooser, max_steps=4000):
+def run_dq_program(prog, chooser, max_steps=4000, release_yield=True):
     from harness import detsched as ds
     ds.install()
     from watchdog.utils.delayed_queue import DelayedQueue
@@ -97,7 +97,14 @@ def run_dq_program(prog, chooser, max_steps=4000):
     s.spawn("prod", prod)
     s.spawn("other", other)
     s.spawn("cons", cons, role="lib")
-    s.run()
+    # also schedule right after every lock release: what a call does between leaving its critical section and returning
+    # (close() publishing its flag after the wake-up, say) can be overtaken by the other threads
+    saved_yar = ds.YIELD_AFTER_RELEASE
+    ds.YIELD_AFTER_RELEASE = release_yield
+    try:
+        s.run()
+    finally:
+        ds.YIELD_AFTER_RELEASE = saved_yar
     # what is left in the queue, through the public API
     # (after the run no scheduler is active: the twin lock is taken immediately by this thread)
     left = []
@@ -148,6 +155,72 @@ def consumer_labels(trace, i, phase):
     return [], phase
 
 
+RELEASED = "Lock.released"      # park label of detsched's opt-in scheduling point after a lock release
+
+
+def section_events(s):
+    """s.events with the time field of the entries that are written AFTER a call returned (put / removed / got / closed:
+    the time is their last field) replaced by the virtual time of the call's last critical section.  With the scheduling
+    point after the lock release the entry is written one step of the same thread later than the section, and the clock
+    may have ticked in between; the order of the entries is unchanged (it is the order in which the calls returned)."""
+    steps: dict[str, list] = {}
+    clock = 0
+    out = []
+    for ent in s.timeline:
+        t, lab = ent[0], ent[1]
+        if t == "<clock>":
+            clock = int(round(float(lab.split()[-1]) / UNIT))
+            continue
+        if lab != "@log":
+            steps.setdefault(t, []).append((lab, clock))
+            continue
+        ev = (t,) + tuple(ent[2:])
+        if ev[1] in ("put", "removed", "got", "closed"):
+            st = steps.get(t, [])
+            k = len(st) - 1
+            if k >= 1 and st[k][0] == RELEASED:
+                k -= 1
+            if k >= 0:
+                ev = ev[:-1] + (st[k][1],)
+        out.append(ev)
+    return out
+
+
+def consumer_labels_ry(trace, i, phase):
+    """consumer_labels for runs with the scheduling point after every lock release: the consumer parks once more
+    (RELEASED) after the enter section and after the pop section; whether the delay wait is needed is decided in the
+    step that follows the release, with the clock of that step."""
+    lab = trace[i][1]
+    nxt = next_park(trace, i)
+    if lab in ("op", "Condition.wait", "start"):
+        return [], phase
+    if (lab == "Lock.acquire" and phase == "ENTER") or lab == "Condition.reacquire":
+        if nxt is None:
+            return ["enter"], "UNKNOWN"
+        if nxt == RELEASED:
+            return ["enter"], "AFTER_ENTER"
+        return ["enter"], "ENTER"                  # Condition.wait: blocked again
+    if lab == RELEASED and phase == "AFTER_ENTER":
+        if nxt is None:
+            return [], "UNKNOWN"
+        if nxt == "@ret":
+            return [], "ENTER"                     # closed: get() returned the end marker
+        if nxt.startswith("sleep"):
+            return [], "DELAY"
+        if nxt == "Lock.acquire":
+            return ["delay"], "POP"                # not delayed, or the delay is already over
+        return [], "ENTER"
+    if lab.startswith("sleep"):
+        if phase == "DELAY" and nxt is not None and not nxt.startswith("sleep"):
+            return ["delay"], "POP"
+        return [], phase
+    if lab == "Lock.acquire" and phase == "POP":
+        return ["pop"], "AFTER_POP"
+    if lab == RELEASED and phase == "AFTER_POP":
+        return [], "ENTER"
+    return [], phase
+
+
 def dq_labels(prog, s):
     """The model label sequence of a finished run (C17 programs)."""
     from harness.core import Atom
@@ -158,6 +231,7 @@ def dq_labels(prog, s):
     labels = []
     phase = "ENTER"
     clock = 0
+    ry = any(e[1] == RELEASED for e in trace)
     for i, ent in enumerate(trace):
         t, lab = ent[0], ent[1]
         if lab == "@log":
@@ -186,7 +260,7 @@ def dq_labels(prog, s):
                     labels.append(Atom("close2"))
             continue
         if t == "cons":
-            ls, phase = consumer_labels(trace, i, phase)
+            ls, phase = (consumer_labels_ry if ry else consumer_labels)(trace, i, phase)
             labels += [Atom(x) for x in ls]
     return labels
 
